@@ -129,17 +129,22 @@ class C04(InterpProp):
         out = r['outcome']
         k = info['k']
         cls = r['err']['class'] if out == 'error' else None
-        if out == 'error' and cls not in ('NonDeterminismError', 'ConflictingTransitionsError'):
-            res.features.add('err:' + cls)
-            if cls == 'StatechartError' or cls.startswith('OTHER'):
-                res.violations.append('step %d: %s raised by execute_once' % (k, cls))
-            return
         gt = oracles.guard_table(r['eff'])
         pending = gh.next(info['clock'])
         pend_name = pending['ev']['ev'] if pending else None
         sel = oracles.fires_spec(sc, trans, set(info['cfg0']), pend_name,
                                  lambda i, x: gt.get((i, x)) is True)
         exp = oracles.classify(sc, [trans[i] for i in sel])
+        if out == 'error' and cls not in ('NonDeterminismError', 'ConflictingTransitionsError'):
+            res.features.add('err:' + cls)
+            if cls == 'StatechartError' or cls.startswith('OTHER'):
+                res.violations.append('step %d: %s raised by execute_once' % (k, cls))
+            elif exp != 'ok' and not any(e[0] in ('exit', 'action', 'entry', 'cond') for e in r['eff']):
+                # nothing was executed yet: the error comes from the selection itself, where the selected
+                # transitions call for NonDeterminismError / ConflictingTransitionsError
+                res.violations.append('step %d: selected transitions %s are %s but execute_once raised %s'
+                                      % (k, sel, exp, r['err'].get('msg') or cls))
+            return
         got = {'NonDeterminismError': 'nondet', 'ConflictingTransitionsError': 'conflict', None: 'ok'}[cls]
         if exp != got:
             res.violations.append('step %d: selected transitions %s are %s but execute_once reported %s'
